@@ -373,7 +373,7 @@ fn run_history(cfg: &Cfg, seed: u64) -> Option<Outcome> {
         break;
       }
       let idle = last_progress.lock().elapsed();
-      if idle > Duration::from_millis(1500) && t0.elapsed() > Duration::from_millis(1600) {
+      if idle > util::scaled(Duration::from_millis(1500)) && t0.elapsed() > util::scaled(Duration::from_millis(1600)) {
         stuck = Some(format!("no progress for {:?}: producers done {}/{}, pushed {}, popped {} (deregistered pipe excluded)", idle, producers_done.load(Ordering::SeqCst), need_done, npushed, npopped));
         break;
       }
@@ -502,6 +502,41 @@ fn rpq_layer(rep: &mut Report, args: &Args, rng: &mut Rng) {
   rep.count("distinct_hook_orders_sampled", orders.len() as u64);
 }
 
+/// (miri) a handful of tiny histories meant to be executed by Miri (one shard per -Zmiri-seed): its scheduler preempts
+/// threads at random basic blocks and its weak-memory emulation lets Relaxed/Acquire loads return stale values that
+/// x86 hardware never shows, so the counter/arming protocol is exercised under orderings the native shards cannot
+/// produce; Miri's data-race detector watches every access meanwhile. Same oracle as the native histories.
+fn miri_layer(rep: &mut Report, args: &Args, rng: &mut Rng) {
+  let cases = args.get_usize("cases", 6);
+  let first = args.get_usize("first", 0);
+  for i in first..first + cases {
+    let cfg = Cfg {
+      via: [Via::Generic, Via::Msg(PipeKind::DirectAnonymous), Via::Msg(PipeKind::FilteredAnonymous), Via::Msg(PipeKind::DirectAddressed)][i % 4],
+      producers: 1 + (i / 2) % 2,
+      items: 3,
+      capacity: 1 + (i / 4) % 2,
+      ready_cap: 2,
+      send_mode: [SendMode::Async, SendMode::Batch, SendMode::Try, SendMode::Mixed][(i / 4) % 4],
+      batch_max: 3,
+      consumers: 1 + (i / 8) % 2,
+      try_pop_mix: i % 2 == 1,
+      cancel_pops: i % 3 == 2,
+      deregister_pipe: None,
+      workers: 2,
+      perturb: false,
+    };
+    let seed = rng.next();
+    let Some(o) = run_history(&cfg, seed) else { continue };
+    rep.case(&(format!("{:?}", cfg), seed), true);
+    rep.count("miri_histories", 1);
+    rep.count("miri_items_popped", o.popped.len() as u64);
+    check_history(rep, &cfg, seed, &o);
+    if i == first {
+      rep.sample(json!({"layer": "miri", "config": format!("{:?}", cfg), "pushed": o.pushed.len(), "popped": o.popped.len(), "stuck": o.stuck}));
+    }
+  }
+}
+
 // ---- Notify users ------------------------------------------------------------------------------
 
 struct NullConn;
@@ -616,6 +651,7 @@ fn main() {
       util::install_panic_watch();
       notify_layer(&mut rep);
     }
+    Some("miri") => miri_layer(&mut rep, &args, &mut rng),
     _ => rpq_layer(&mut rep, &args, &mut rng),
   }
   rep.merge_hooks();
